@@ -198,6 +198,21 @@ func ruleStampHasRecord(c *Ctx, rule string) {
 					c.OK(rule, key, call.Pos(), 1, "stamp is the LSN of the record being applied")
 					continue
 				}
+				// a field of a parameter (the arguments of the operation bundled in a struct) is forwarded too
+				root := ast.Expr(x)
+				for {
+					if s2, ok := ast.Unparen(root).(*ast.SelectorExpr); ok {
+						root = s2.X
+						continue
+					}
+					break
+				}
+				if rid, ok := ast.Unparen(root).(*ast.Ident); ok && isParamOf(f, f.ObjOf(rid)) {
+					if b, ok := f.TypeOf(x).Underlying().(*types.Basic); ok && b.Kind() == types.Uint64 {
+						c.OK(rule, key, call.Pos(), 1, "stamp forwarded from the caller (field of a parameter)")
+						continue
+					}
+				}
 			case *ast.Ident:
 				obj := f.ObjOf(x)
 				if isParamOf(f, obj) {
@@ -646,52 +661,105 @@ func ruleDescentAgreement(c *Ctx, rule string) {
 					}
 				}
 			}
-			// (b) loop variable guarded by key < cellKey(offsets[i])
-			guarded := false
-			ast.Inspect(f.Decl.Body, func(y ast.Node) bool {
-				be, ok := y.(*ast.BinaryExpr)
-				if !ok || (be.Op != token.LSS && be.Op != token.GTR) {
-					return true
-				}
-				sepSide := be.Y
-				if be.Op == token.GTR {
-					sepSide = be.X
-				}
+			// (b) a scan: the comparison of the key with the separator at the index variable. Where it is the
+			// condition of the loop it says when to go ON (key >= separator); where it guards the choice
+			// (or a break) it says when to STOP (key < separator). Anything that stops at a separator equal
+			// to the key is the non-strict search.
+			verdict := 0 // 1 strict, 2 non-strict
+			var walk func(n ast.Node, loopCond bool)
+			classify := func(be *ast.BinaryExpr, loopCond bool, negated bool) {
+				op := be.Op
+				var keySide, sepSide ast.Expr = be.X, be.Y
 				call, ok := ast.Unparen(sepSide).(*ast.CallExpr)
 				if !ok || !f.CallIs(call, "storage.btreeNode.cellKey") {
-					return true
+					keySide, sepSide = be.Y, be.X
+					op = mirrorOp(op)
+					call, ok = ast.Unparen(sepSide).(*ast.CallExpr)
+					if !ok || !f.CallIs(call, "storage.btreeNode.cellKey") {
+						return
+					}
 				}
+				_ = keySide
+				mentions := false
 				ast.Inspect(call, func(z ast.Node) bool {
 					if zi, ok := z.(*ast.Ident); ok && f.ObjOf(zi) == obj {
-						guarded = true
+						mentions = true
 					}
 					return true
 				})
-				return true
-			})
-			if guarded {
-				c.OK(rule, key, sel.Pos(), 2, "index is the first position with key < separator")
-				return true
-			}
-			nonStrictGuard := false
-			ast.Inspect(f.Decl.Body, func(y ast.Node) bool {
-				be, ok := y.(*ast.BinaryExpr)
-				if !ok || (be.Op != token.LEQ && be.Op != token.GEQ) {
-					return true
+				if !mentions {
+					return
 				}
-				for _, side := range []ast.Expr{be.X, be.Y} {
-					if call, ok := ast.Unparen(side).(*ast.CallExpr); ok && f.CallIs(call, "storage.btreeNode.cellKey") {
-						ast.Inspect(call, func(z ast.Node) bool {
-							if zi, ok := z.(*ast.Ident); ok && f.ObjOf(zi) == obj {
-								nonStrictGuard = true
-							}
-							return true
-						})
+				if negated {
+					op = negOp(op)
+				}
+				// normalise to the STOP condition on (key op separator)
+				stop := op
+				if loopCond {
+					stop = negOp(op)
+				}
+				switch stop {
+				case token.LSS:
+					if verdict == 0 {
+						verdict = 1
 					}
+				case token.LEQ:
+					verdict = 2
 				}
+			}
+			walk = func(n ast.Node, loopCond bool) {
+				ast.Inspect(n, func(y ast.Node) bool {
+					switch z := y.(type) {
+					case *ast.ForStmt:
+						if z.Cond != nil {
+							var visit func(e ast.Expr, neg bool)
+							visit = func(e ast.Expr, neg bool) {
+								e = ast.Unparen(e)
+								if u, ok := e.(*ast.UnaryExpr); ok && u.Op == token.NOT {
+									visit(u.X, !neg)
+									return
+								}
+								if be, ok := e.(*ast.BinaryExpr); ok {
+									if be.Op == token.LAND || be.Op == token.LOR {
+										visit(be.X, neg)
+										visit(be.Y, neg)
+										return
+									}
+									classify(be, true, neg)
+								}
+							}
+							visit(z.Cond, false)
+						}
+						walk(z.Body, false)
+						return false
+					case *ast.IfStmt:
+						var visit func(e ast.Expr, neg bool)
+						visit = func(e ast.Expr, neg bool) {
+							e = ast.Unparen(e)
+							if u, ok := e.(*ast.UnaryExpr); ok && u.Op == token.NOT {
+								visit(u.X, !neg)
+								return
+							}
+							if be, ok := e.(*ast.BinaryExpr); ok {
+								if be.Op == token.LAND || be.Op == token.LOR {
+									visit(be.X, neg)
+									visit(be.Y, neg)
+									return
+								}
+								classify(be, false, neg)
+							}
+						}
+						visit(z.Cond, false)
+					}
+					return true
+				})
+			}
+			walk(f.Decl.Body, false)
+			switch verdict {
+			case 1:
+				c.OK(rule, key, sel.Pos(), 2, "the scan stops at the first separator strictly greater than the key")
 				return true
-			})
-			if nonStrictGuard {
+			case 2:
 				c.Fail(rule, key, sel.Pos(), "%s chooses the child at the first separator >= key (non-strict): insert and lookup disagree for a key equal to a separator", f.Name)
 				return true
 			}
@@ -951,6 +1019,18 @@ func ruleListIterationStable(c *Ctx, rule string) {
 				switch fl.TypeOf(rs.X).Underlying().(type) {
 				case *types.Map, *types.Slice, *types.Array:
 					okRange = true // a map, or a slice collected beforehand: neither is reordered by the writes
+				}
+			}
+			// an index loop over a slice collected beforehand
+			if fs, ok := x.(*ast.ForStmt); ok && fs.Cond != nil && len(fl.Calls(fs.Body, false, "storage.*.update")) > 0 {
+				if be, ok := ast.Unparen(fs.Cond).(*ast.BinaryExpr); ok && be.Op == token.LSS {
+					if lc, ok := ast.Unparen(be.Y).(*ast.CallExpr); ok && len(lc.Args) == 1 {
+						if id, ok := lc.Fun.(*ast.Ident); ok && id.Name == "len" {
+							if _, isSlice := fl.TypeOf(lc.Args[0]).Underlying().(*types.Slice); isSlice {
+								okRange = true
+							}
+						}
+					}
 				}
 			}
 			return true
